@@ -62,7 +62,8 @@ impl FitToType for f32 {
         if has_fraction {
             Variant::VSingle(self)
         } else {
-            (self.round() as i64).fit_to_type()
+            // every f32 is exactly an f64
+            (self as f64).fit_to_type()
         }
     }
 }
@@ -71,10 +72,15 @@ impl FitToType for f64 {
     fn fit_to_type(self) -> Variant {
         let diff = self - self.round();
         let has_fraction = diff.abs() > 0.0001;
+        let rounded = self.round();
         if has_fraction {
             Variant::VDouble(self)
+        } else if rounded >= (MIN_LONG as Self) && rounded <= (MAX_LONG as Self) {
+            (rounded as i64).fit_to_type()
         } else {
-            (self.round() as i64).fit_to_type()
+            // a whole number beyond the LONG range stays a DOUBLE
+            // (converting it to i64 would saturate)
+            Variant::VDouble(rounded)
         }
     }
 }
